@@ -306,17 +306,17 @@ type c21Rec struct {
 }
 
 type c21Run struct {
-	spec    c21Spec
-	inner   storage.Storage
-	ob      storage.Storage
-	dbOut   database.Database
-	repo    storageoutboxentry.Repository
-	res     *caseResult
-	hist    []c21Rec
-	histMu  sync.Mutex
-	sleeps  atomic.Int64
-	polled  atomic.Int64
-	model   *c21Model
+	spec        c21Spec
+	inner       storage.Storage
+	ob          storage.Storage
+	dbOut       database.Database
+	repo        storageoutboxentry.Repository
+	res         *caseResult
+	hist        []c21Rec
+	histMu      sync.Mutex
+	sleeps      atomic.Int64
+	polled      atomic.Int64
+	model       *c21Model
 	waitedReads int
 }
 
